@@ -48,6 +48,7 @@ def ignore_copy(func: Callable[[T_Self, str], T_Retval]) -> Callable[[T_Self, st
             "__getstate__",
             "__setstate__",
             "__getnewargs__",
+            "__slots__",
         ]:
             raise AttributeError(
                 "'%s' object has no attribute '%s'" % (self.__class__.__name__, name)
